@@ -4,7 +4,7 @@
    (C16/C04).  The simulation of slices in the shell (arrays named through _dv<n>, eval) is decided by executing
    generated programs (aliasing, growth, copy, range, all subscript forms) against Sem/Src.v. *)
 From Verif Require Import Base.Bytestr Front.Ast Sem.Src Sem.SliceFacts.
-From Coq Require Import ZArith.
+From Coq Require Import ZArith List.
 
 Theorem C03_store_length : forall l n v z, length (slice_store l n v z) = Nat.max (length l) (S n).
 Proof. exact store_length. Qed.
@@ -25,6 +25,54 @@ Print Assumptions C03_store_zero_fills_gap.
 Theorem C03_substring_length : forall (s : bytes) a n, (a + n <= length s)%nat -> length (sub_bytes s a n) = n.
 Proof. exact substring_length. Qed.
 Print Assumptions C03_substring_length.
+
+(* copy(dst, src): the interpreter stores exactly copy_store (Src.v, ECopy) and reports length src *)
+Theorem C03_copy_prefix : forall ls ld i, (i < length ls)%nat -> nth_error (copy_store ls ld) i = nth_error ls i.
+Proof. exact copy_prefix. Qed.
+Print Assumptions C03_copy_prefix.
+
+Theorem C03_copy_keeps_tail : forall ls ld i, (length ls <= i)%nat -> nth_error (copy_store ls ld) i = nth_error ld i.
+Proof. exact copy_tail. Qed.
+Print Assumptions C03_copy_keeps_tail.
+
+Theorem C03_copy_length : forall ls ld, length (copy_store ls ld) = Nat.max (length ls) (length ld).
+Proof. exact copy_length. Qed.
+Print Assumptions C03_copy_length.
+
+(* reference semantics of the heap: a store through an id is what every holder of that id reads, no other slice changes,
+   nothing but the heap changes, and a new slice never reuses an id (the _dvc counter of the script) *)
+Theorem C03_write_visible_through_alias : forall id l s, (id < length (s_heap s))%nat ->
+  exists s', set_slice id l s = Done tt s' /\ get_slice id s' = Done l s' /\ length (s_heap s') = length (s_heap s).
+Proof. exact set_then_get. Qed.
+Print Assumptions C03_write_visible_through_alias.
+
+Theorem C03_write_keeps_other_slices : forall id id' l s s', set_slice id l s = Done tt s' -> id <> id' ->
+  nth_error (s_heap s') id' = nth_error (s_heap s) id'.
+Proof. exact set_keeps_others. Qed.
+Print Assumptions C03_write_keeps_other_slices.
+
+Theorem C03_write_changes_heap_only : forall id l s s', set_slice id l s = Done tt s' ->
+  s_globals s' = s_globals s /\ s_frame s' = s_frame s /\ s_out s' = s_out s /\ s_files s' = s_files s /\ s_stdin s' = s_stdin s.
+Proof. exact set_changes_heap_only. Qed.
+Print Assumptions C03_write_changes_heap_only.
+
+Theorem C03_new_slice_is_fresh : forall l s v s', new_slice l s = Done v s' ->
+  exists id, v = VSlice id /\ nth_error (s_heap s) id = None /\ nth_error (s_heap s') id = Some l
+    /\ forall id', (id' < length (s_heap s))%nat -> nth_error (s_heap s') id' = nth_error (s_heap s) id'.
+Proof. exact new_slice_fresh. Qed.
+Print Assumptions C03_new_slice_is_fresh.
+
+Theorem C03_element_store_through_alias : forall id n v z s l, get_slice id s = Done l s ->
+  exists s', set_slice id (slice_store l n v z) s = Done tt s'
+    /\ (exists l', get_slice id s' = Done l' s' /\ nth_error l' n = Some v /\ length l' = Nat.max (length l) (S n)).
+Proof. exact store_through_alias. Qed.
+Print Assumptions C03_element_store_through_alias.
+
+Example C03_copy_sample :
+  copy_store [VInt 7; VInt 8] [VInt 1; VInt 2; VInt 3] = [VInt 7; VInt 8; VInt 3]
+  /\ copy_store [VInt 7; VInt 8] [] = [VInt 7; VInt 8]
+  /\ get_slice 0 (mkS [] [] [[VInt 1]] [] [] [] []) = Done [VInt 1] (mkS [] [] [[VInt 1]] [] [] [] []).
+Proof. vm_compute. repeat split; reflexivity. Qed.
 
 (* the interpreter uses exactly slice_store *)
 Example C03_store_sample :
